@@ -44,7 +44,7 @@ theorem good_rdN (chk : Bool) (n : Nat) (st : St) (k : Bytes → St → P) (hn :
   refine Good.read n _ hn (fun bs h1 h2 => hk bs h1 h2) (Good.ret _) (fun _ => ⟨_, _, rfl, rfl, rfl⟩)
 
 theorem good_fields (chk : Bool) (fs : List Triplet) (hfs : ∀ t ∈ fs, t.2.1 < 256) :
-    ∀ (st : St) (acc : List (Nat × Nat)) (k : St → List (Nat × Nat) → P),
+    ∀ (st : St) (acc : List (Nat × Bytes)) (k : St → List (Nat × Bytes) → P),
       (∀ st' acc', st'.defs = st.defs → G (k st' acc')) → G (fields chk fs st acc k) := by
   induction fs with
   | nil => intro st acc k hk; exact hk st acc rfl
@@ -60,7 +60,7 @@ theorem good_fields (chk : Bool) (fs : List Triplet) (hfs : ∀ t ∈ fs, t.2.1 
       exact ih hfs' _ _ k (fun st' acc' h => hk st' acc' (by rw [h]))
 
 theorem good_devFields (chk : Bool) (descs : List Triplet) (fs : List Triplet) (hfs : ∀ t ∈ fs, t.2.1 < 256) :
-    ∀ (st : St) (cnt : Nat) (k : St → Nat → P),
+    ∀ (st : St) (cnt : List (Nat × Nat × Bytes)) (k : St → List (Nat × Nat × Bytes) → P),
       (∀ st' cnt', st'.defs = st.defs → G (k st' cnt')) → G (devFields chk descs fs st cnt k) := by
   induction fs with
   | nil => intro st cnt k hk; exact hk st cnt rfl
@@ -128,7 +128,7 @@ theorem good_data (chk : Bool) (header : Nat) (st : St) (k : St → P) (hst : De
   · rename_i d hd
     obtain ⟨h1, h2⟩ := lookup_ok hst hd
     refine good_fields chk d.fields h1 st [] _ (fun st' vals hdefs => ?_)
-    refine good_devFields chk _ d.devFields h2 _ 0 _ (fun st'' nd hdefs' => ?_)
+    refine good_devFields chk _ d.devFields h2 _ [] _ (fun st'' nd hdefs' => ?_)
     apply hk
     simp only at hdefs' ⊢
     rw [hdefs', hdefs]; exact hst
@@ -289,7 +289,7 @@ theorem keeps_rdN (chk : Bool) (n : Nat) (st : St) (k : Bytes → St → P)
   exact Keeps.read n _ (fun bs => hk bs _) (fun e => ⟨_, rfl, hQ e _⟩)
 
 theorem keeps_fields (chk : Bool) (fs : List Triplet) :
-    ∀ (st : St) (acc : List (Nat × Nat)) (k : St → List (Nat × Nat) → P),
+    ∀ (st : St) (acc : List (Nat × Bytes)) (k : St → List (Nat × Bytes) → P),
       (∀ st' acc', Keeps Q (k st' acc')) → Keeps Q (fields chk fs st acc k) := by
   induction fs with
   | nil => intro st acc k hk; exact hk st acc
@@ -302,7 +302,7 @@ theorem keeps_fields (chk : Bool) (fs : List Triplet) :
     · exact keeps_rdN hQ chk size st _ (fun b st' => ih _ _ k hk)
 
 theorem keeps_devFields (chk : Bool) (descs : List Triplet) (fs : List Triplet) :
-    ∀ (st : St) (cnt : Nat) (k : St → Nat → P),
+    ∀ (st : St) (cnt : List (Nat × Nat × Bytes)) (k : St → List (Nat × Nat × Bytes) → P),
       (∀ st' cnt', Keeps Q (k st' cnt')) → Keeps Q (devFields chk descs fs st cnt k) := by
   induction fs with
   | nil => intro st cnt k hk; exact hk st cnt
